@@ -211,10 +211,11 @@ func GetNode(children []*Node, path string) (*Node, bool) {
 		if node.Name != searchName {
 			continue
 		}
-		if len(node.Children) == 0 {
-			return node, true
-		}
 		if len(pathSplit) > 1 {
+			// the rest of the path lies beneath this node: a file has nothing beneath it
+			if len(node.Children) == 0 {
+				return nil, false
+			}
 			return GetNode(node.Children, pathSplit[1])
 		}
 		return node, true
